@@ -159,7 +159,7 @@ theorem readRequiredImpact_ok (s : St) (h : Coh s) : ReadOK s (readRequiredImpac
     rcases hrc : readCorr s with ⟨s1, c⟩
     rw [hrc] at hr
     rcases hr.cases with ⟨hx, hx1, rfl⟩ | ⟨x, hx, hx1, rfl⟩
-    · simp only [hx1]
+    · simp only []
       exact ⟨hr.coh, hr.val, hr.xv, hr.yv⟩
     · have h1 : Coh s1 := hr.coh
       have e1 : s1.xv = s.xv := hr.xv
@@ -177,7 +177,7 @@ theorem readDwtest_ok (s : St) (h : Coh s) : ReadOK s (readDwtest s) := by
     rcases hrc : readPretestfit s with ⟨s1, c⟩
     rw [hrc] at hr
     rcases hr.cases with ⟨hx, hx1, rfl⟩ | ⟨x, hx, hx1, rfl⟩
-    · simp only [hx1]
+    · simp only []
       exact ⟨hr.coh, hr.val, hr.xv, hr.yv⟩
     · have h1 : Coh s1 := hr.coh
       have e1 : s1.xv = s.xv := hr.xv
@@ -223,7 +223,7 @@ theorem readCorrTest_ok (s : St) (h : Coh s) : ReadOK s (readCorrTest s) := by
   rcases hrc : readCorr s with ⟨s1, c⟩
   rw [hrc] at hr
   rcases hr.cases with ⟨hx, hx1, rfl⟩ | ⟨x, hx, hx1, rfl⟩
-  · simp only [hx1]
+  · simp only []
     exact ⟨hr.coh, hr.val, hr.xv, hr.yv⟩
   · have h1 : Coh s1 := hr.coh
     have e1 : s1.xv = s.xv := hr.xv
@@ -239,7 +239,7 @@ theorem readTbrfit_ok (s : St) (h : Coh s) : ReadOK s (readTbrfit s) := by
   rcases hrc : readPretestfit s with ⟨s1, c⟩
   rw [hrc] at hr
   rcases hr.cases with ⟨hx, hx1, rfl⟩ | ⟨x, hx, hx1, rfl⟩
-  · simp only [hx1]
+  · simp only []
     exact ⟨hr.coh, hr.val, hr.xv, hr.yv⟩
   · have h1 : Coh s1 := hr.coh
     have e1 : s1.xv = s.xv := hr.xv
@@ -275,7 +275,7 @@ theorem readTestsOk_ok (s : St) (n : Nat) (h : Coh s) : ReadOK s (readTestsOk s 
     rcases hrc : readCorrTest s with ⟨s1, c⟩
     rw [hrc] at hr
     rcases hr.cases with ⟨hx, hx1, rfl⟩ | ⟨x, hx, hx1, rfl⟩
-    · simp only [hx1]
+    · simp only []
       exact ⟨hr.coh, hr.val, hr.xv, hr.yv⟩
     · have h1 : Coh s1 := hr.coh
       simp only [hx1]
